@@ -66,7 +66,8 @@ def replay(prog) -> dict:
 
 def _descr(ev, bad, prog=None):
     op = ev["op"]
-    sub = op.get("via") or (op.get("how") or {}).get("name") or (op.get("gop") or {}).get("name") or ""
+    how = op.get("how")
+    sub = op.get("via") or (how if isinstance(how, str) else (how or {}).get("name")) or (op.get("gop") or {}).get("name") or ""
     return dict(clause=bad["why"], op=op["name"], sub=sub, ctx=bad.get("ctx", ""), kind=ev["L"]["kind"],
                 error=ev["out"]["err"][:80], event=ev, program=prog)
 
